@@ -99,6 +99,7 @@ func (e *Exec) RunFunction(fn *ssa.Function) (err error) {
 		}
 	}
 	e.entry = st.clone()
+	e.aoEntry(fr, st, fn, e.contractOf(fn))
 	if c := e.contractOf(fn); c != nil {
 		e.mustDefer(fn, st, c)
 		e.lemmas(fr, st, c)
@@ -822,6 +823,27 @@ func (e *Exec) loopInvariants(fr *Frame, h *ssa.BasicBlock, phis []*ssa.Phi, ini
 			}
 			add("$last<"+pname, true, func(v map[*ssa.Phi]Value, st *State) *Term { return Lt(st.heap[gLast], v[phi].(*Term)) })
 			add("$last<="+pname, true, func(v map[*ssa.Phi]Value, st *State) *Term { return Le(st.heap[gLast], v[phi].(*Term)) })
+		}
+	}
+	// append-only candidates: a byte buffer carried around the loop still starts with what the function's
+	// buffer parameter held at entry
+	if e.aoB0 != nil && fr.parent == nil {
+		for pi, phi := range phis {
+			phi := phi
+			if !isByteSlice(phi.Type()) {
+				continue
+			}
+			pname := phi.Comment
+			if pname == "" {
+				pname = fmt.Sprintf("phi%d", pi)
+			}
+			add(pname+":keeps-prefix", true, func(v map[*ssa.Phi]Value, st *State) *Term {
+				t, ok := v[phi].(*Term)
+				if !ok {
+					return False
+				}
+				return aoPrefix(t, e.aoHeap(st), e.aoB0, e.aoH0)
+			})
 		}
 	}
 	// ownership candidates (family M): a slice / list object carried around the
